@@ -389,7 +389,12 @@ void run_idle_sweep(Judge& j, uint64_t nbase, int max_idle, const std::vector<in
     Knobs k; k.pubs_max = 6; k.suffix = 12 * SEC; k.span = 1 * SEC; k.faults_max = 1; k.bad_attempts_max = 1; k.big_payload_pct = 0;
     k.rm_choices = {0, 0, 1, 2, 5, 10, 65535}; k.authenticator_pct = 30; k.server_disconnect_pct = 40;
     const uint64_t nmini = 14;   // deterministic small bases on top of the seeded ones (see below)
+    // debugging aid: --sweep-bi B [--sweep-pass P] [--sweep-ip N] [--sweep-tk K] re-runs the matching placements only (no sharding)
+    const bool dbg = ctx.args.has("sweep-bi");
+    const int64_t dbg_bi = dbg ? ctx.args.num("sweep-bi") : -1, dbg_pass = ctx.args.has("sweep-pass") ? ctx.args.num("sweep-pass") : -1,
+                  dbg_ip = ctx.args.has("sweep-ip") ? ctx.args.num("sweep-ip") : -1, dbg_tk = ctx.args.has("sweep-tk") ? ctx.args.num("sweep-tk") : -1;
     for (uint64_t bi = 0; bi < nbase + nmini; ++bi) {
+        if (dbg && (int64_t)bi != dbg_bi) continue;
         vu::Rng rng(ctx.seed * 31337 + bi * 104729);
         Scenario base = gen_mix(rng, k, "idle-base");
         base.seed = ctx.seed; base.index = bi;
@@ -410,7 +415,7 @@ void run_idle_sweep(Judge& j, uint64_t nbase, int max_idle, const std::vector<in
                 base.end = 8 * SEC;
             } else if (variant >= 10) {
                 // acknowledgements overtake slow write completions while inbound messages keep the sender busy
-                base.net.write_done_delay_max = variant % 2 ? 400 * MS : 60 * MS;
+                base.net.write_done_delay_max = variant % 2 ? 400 * MS : 60 * MS; base.net.write_done_delay_min = base.net.write_done_delay_max;   // every write completes that late
                 Action p; p.kind = Action::publish; p.at = 250 * MS; p.qos = variant < 12 ? 2 : 1; p.topic = "x"; p.payload = "y"; base.script.push_back(p);
                 Action sb; sb.kind = Action::subscribe; sb.at = 250 * MS; sb.subs = {{"s/+", 1}}; base.script.push_back(sb);
                 for (int q = 0; q < 3; ++q) { Action in; in.kind = Action::broker_publish; in.at = (252 + 40 * q) * MS; in.qos = 1 + q % 2; in.topic = "i"; in.payload = "in"; base.script.push_back(in); }
@@ -422,6 +427,7 @@ void run_idle_sweep(Judge& j, uint64_t nbase, int max_idle, const std::vector<in
             base.end = 8 * SEC;
             }
         }
+        if (bi < nbase) {    // the seeded bases get random slow paths and limits; the small deterministic ones stay as written
         if (rng.chance(1, 3)) base.net.shutdown_hangs = true;
         // slow paths: the terminal action then meets a connect in progress, a handshake in flight or a write being drained
         if (rng.chance(1, 3)) base.default_attempt.tcp_delay = (vt)rng.pick(std::vector<vt>{300 * MS, 1500 * MS});
@@ -432,6 +438,7 @@ void run_idle_sweep(Judge& j, uint64_t nbase, int max_idle, const std::vector<in
         // the client's own receive limit says nothing about what it may send
         if (rng.chance(1, 3)) base.ccfg.connect_props[boost::mqtt5::prop::maximum_packet_size] = (uint32_t)rng.pick(std::vector<int>{40, 60, 100});
         if (rng.chance(1, 5)) { base.attempts.clear(); AttemptPlan a; a.tcp = AttemptPlan::tcp_hang; base.attempts.push_back(a); base.default_attempt = a; }
+        }
         // number of idle points / handler boundaries of the undisturbed run
         uint64_t nidle, nhand; std::vector<vt> tinst;
         { auto ex = execute(base); nidle = ex->run.out.idle_points; nhand = ex->run.out.handler_boundaries; tinst = ex->run.out.timer_instants; }
@@ -446,7 +453,8 @@ void run_idle_sweep(Judge& j, uint64_t nbase, int max_idle, const std::vector<in
             for (int ip = 1; ip <= lim; ++ip)
                 for (int tk : kinds) {
                     if (pass == 2 && tk > 2 && tk != 4 && tk != 5 && tk != 10 && tk != 11) continue;
-                    if (int(idx++ % ctx.nshards) != ctx.shard) continue;
+                    if (dbg) { if ((dbg_pass >= 0 && pass != dbg_pass) || (dbg_ip >= 0 && ip != dbg_ip) || (dbg_tk >= 0 && tk != dbg_tk)) continue; }
+                    else if (int(idx++ % ctx.nshards) != ctx.shard) continue;
                     Scenario sc = base; sc.family = pass == 0 ? "idle-sweep" : pass == 1 ? "handler-sweep" : "timer-sweep"; sc.index = bi * 1000000 + ip * 10 + tk + (pass ? 500000 : 0) + (pass == 2 ? 200000 : 0);
                     Action a;
                     if (pass == 0) a.idle_index = ip; else if (pass == 1) a.handler_index = ip; else { a.at = tinst[ip - 1]; a.in_handler = true; }
@@ -510,7 +518,10 @@ void run_idle_sweep(Judge& j, uint64_t nbase, int max_idle, const std::vector<in
                     (void)later;
                     vu::set_case(sc.family + " base=" + std::to_string(bi) + " at=" + std::to_string(ip) + " terminal=" + std::to_string(tk));
                     auto ex = execute(sc);
+                    size_t nv0 = j.res.violations.size();
                     j.judge(sc, *ex);
+                    if (dbg) { for (size_t q = nv0; q < j.res.violations.size(); ++q) printf("SWEEP bi=%llu pass=%d ip=%d tk=%d VIOLATION %s\n", (unsigned long long)bi, pass, ip, tk, j.res.violations[q].key.c_str());
+                               if (dbg_ip >= 0) printf("%s\n%s\n", sc.describe().c_str(), ex->world->h.dump(4000).c_str()); }
                     j.res.count("terminal_placements");
                     j.res.count(pass == 0 ? "idle_point_placements" : pass == 1 ? "handler_boundary_placements" : "timer_instant_placements");
                     j.res.count("terminal_kind_" + std::to_string(tk));
